@@ -69,7 +69,7 @@ struct Builder {
         }
     }
     void gadget(const Step& s) {
-        s64 k = s.arg(0) % 14, x = s.arg(1), y = s.arg(2);
+        s64 k = s.arg(0) % 15, x = s.arg(1), y = s.arg(2);
         switch (k) {
         case 0:
         case 1:
@@ -145,6 +145,13 @@ struct Builder {
             a.brr(1, (u16)(1 + (x % 2)));
             a.w(kAlu1[y % 8]);
             break;
+        case 13: // critical section: an interrupt arriving inside is deferred to the eint, and ie reads 0 in between
+            a.w(op::DINT);
+            simple(x, y, s.arg(3));
+            if (y & 1)
+                simple(y, x, s.arg(3));
+            a.w(op::EINT);
+            break;
         default:
             a.w(op::NOP);
             break;
@@ -190,7 +197,7 @@ public:
             p.add("sub", {(s64)r.below(7), (s64)(r.next() & 0xFFFF), (s64)(r.next() & 0xFFFF), (s64)r.below(4)});
         int n = (int)r.range(4, tier.thorough ? 60 : 36);
         for (int i = 0; i < n; ++i)
-            p.add("p", {(s64)r.below(14), (s64)(r.next() & 0xFFFF), (s64)(r.next() & 0xFFFF), (s64)(r.next() & 0xFFFF)});
+            p.add("p", {(s64)r.below(15), (s64)(r.next() & 0xFFFF), (s64)(r.next() & 0xFFFF), (s64)(r.next() & 0xFFFF)});
         int k = (int)r.range(1, 3);
         for (int i = 0; i < k; ++i)
             p.add("inj", {(s64)r.below(1000)});
